@@ -76,6 +76,11 @@ class Ctx:
     # ---------- build ----------
     def build(self, race=False):
         shutil.copy(os.path.join(REPO, "go.sum"), os.path.join(HARNESS, "go.sum"))
+        if REPO != "/repo":
+            # background sweeps (vp run --with-repo) build against a snapshot of the repository
+            gm = os.path.join(HARNESS, "go.mod")
+            txt = open(gm).read().replace("=> /repo/api", "=> %s/api" % REPO).replace("=> /repo\n", "=> %s\n" % REPO)
+            open(gm, "w").write(txt)
         out = os.path.join(VERIF, "harness", "bin", "edsim-race" if race else "edsim")
         cmd = ["go", "build", "-tags", TAG, "-o", out]
         env = dict(GOENV)
